@@ -221,7 +221,9 @@ TYPE_GROUPS = [
 ]
 SIMD_GROUPS = TYPE_GROUPS[:6] + [["Vec3", "DVec4", "DQuat", "DMat3", "BVec3"]]
 
-MIRI_FLAGS = "-Zmiri-disable-isolation"
+# isolation off: the simulator writes its JSON result; deterministic floats: Miri otherwise perturbs sin/cos/... results
+# at random, which would make twin runs of the *same* program differ (a false alarm of the harness, not of glam)
+MIRI_FLAGS = "-Zmiri-disable-isolation -Zmiri-deterministic-floats"
 
 
 def miri_cmd(cfg, args):
@@ -297,6 +299,8 @@ def run_miri(cfg, args, groups=None):
     log("miri build %s in %.1fs" % (cfg, time.time() - t0))
     if groups:
         jobs = [(miri_cmd(cfg, list(args) + ["--types", ",".join(g)]), env) for g in groups]
+    elif args and isinstance(args[0], list):
+        jobs = [(miri_cmd(cfg, a), env) for a in args]
     else:
         jobs = [(miri_cmd(cfg, args), env)]
     return run_monitored(cfg, jobs, "miri")
@@ -467,6 +471,7 @@ def check_c19(tier, seed):
     cfgs, skipped = available_configs(["sse2-rel", "scalar", "coresimd"] + (["sse2-dbg", "native"] if tier == "thorough" else []))
     values = 8 if tier == "quick" else 400
     build_all(cfgs)
+    det = selftest_determinism("sse2-rel", seed, [["c19", "--values", 2]], seeds=2 if tier == "quick" else 8)
     results = {}
     for c in cfgs:
         results[c] = run_sim(c, ["c19", "--seed", seed, "--values", values, "--workers", NCPU])
@@ -514,6 +519,7 @@ def check_c19(tier, seed):
         "fault_kinds_stuck_at_zero": stuck,
         "probes": probes,
         "cross_build": cross,
+        "determinism_selftest": det,
         "plans_enumerated_per_config": {c: r["extra"]["plans_enumerated"] for c, r in results.items()},
         "values_per_plan": values,
         "runs_per_hour": int(evals / max(time.time() - t0, 1e-9) * 3600),
@@ -544,20 +550,23 @@ def collect(results, viols, fired, effective, probes):
     return evals
 
 
-def selftest_determinism(cfg, seed, runs=3000, seeds=8):
-    """Same seed twice, at 1 and 16 workers, in separate processes: event-log digests must agree."""
+def selftest_determinism(cfg, seed, cmds, seeds=4):
+    """One seed = one execution: every sub-command is run twice per seed, in separate processes, once on 1 worker and
+    once on all cores; the complete JSON outputs (event-log digests, counters, samples) must be identical."""
     bad = []
+    n = 0
     for k in range(seeds):
         sd = seed + 1000003 * k
-        a = run_sim(cfg, ["c08", "--seed", sd, "--runs", runs, "--workers", 1])
-        b = run_sim(cfg, ["c08", "--seed", sd, "--runs", runs, "--workers", NCPU])
-        da = (a["digests"], a["evaluations"], a["distinct_nontrivial"], a["faults_fired"])
-        db = (b["digests"], b["evaluations"], b["distinct_nontrivial"], b["faults_fired"])
-        if da != db:
-            bad.append(sd)
+        for cmd in cmds:
+            a = run_sim(cfg, cmd + ["--seed", sd, "--workers", 1])
+            b = run_sim(cfg, cmd + ["--seed", sd, "--workers", NCPU])
+            n += 1
+            if a != b:
+                bad.append((sd, cmd[0]))
     if bad:
-        raise HarnessError("determinism self-test failed for seeds %s on %s: the simulator is not a pure function of the seed" % (bad, cfg))
-    return {"seeds": seeds, "runs_per_seed": runs, "worker_counts": [1, NCPU], "config": cfg, "diverging": 0}
+        raise HarnessError("determinism self-test failed for %s on %s: the simulator is not a pure function of the seed" % (bad, cfg))
+    return {"seeds": seeds, "commands": [" ".join(map(str, c)) for c in cmds], "worker_counts": [1, NCPU], "config": cfg,
+            "pairs_compared": n, "diverging": 0}
 
 
 # ------------------------------------------------------------------------------------------------
@@ -571,7 +580,7 @@ def check_c08(tier, seed):
     runs = {"quick": {"sse2-rel": 300000, "sse2-dbg": 40000, "coresimd": 300000, "native": 0},
             "thorough": {"sse2-rel": 6000000, "sse2-dbg": 500000, "coresimd": 6000000, "native": 6000000}}[tier]
     build_all(cfgs)
-    det = selftest_determinism("sse2-rel", seed, runs=2000, seeds=4 if tier == "quick" else 32)
+    det = selftest_determinism("sse2-rel", seed, [["c08", "--runs", 2000]], seeds=4 if tier == "quick" else 32)
     results = []
     for c in cfgs:
         results.append((c, run_sim(c, ["c08", "--seed", seed, "--runs", runs[c], "--workers", NCPU])))
@@ -579,7 +588,7 @@ def check_c08(tier, seed):
     evals = collect(results, viols, fired, effective, probes)
     miri = None
     if tier == "thorough":
-        miri = run_miri("miri", ["c08", "--seed", seed, "--runs", 1500, "--workers", 1])
+        miri = run_miri("miri", [["c08", "--seed", seed + 7919 * i, "--runs", 24, "--workers", 1] for i in range(NCPU)])
         results.append(("miri", miri))
         evals += miri["evaluations"]
         for v in miri["violations"]:
@@ -630,6 +639,7 @@ def check_c17(tier, seed):
     cfgs, skipped = available_configs(["sse2-rel", "scalar", "coresimd"] + (["sse2-dbg", "native"] if tier == "thorough" else []))
     build_all(cfgs)
     hist = {"quick": 1500, "thorough": 120000}[tier]
+    det = selftest_determinism("sse2-rel", seed, [["c17", "--histories", 60]], seeds=2 if tier == "quick" else 16)
     results, results_ff = [], []
     for c in cfgs:
         h = hist if c != "sse2-dbg" else max(200, hist // 10)
@@ -643,7 +653,7 @@ def check_c17(tier, seed):
     if tier == "thorough":
         for mc in ["miri", "miri-scalar", "miri-coresimd"]:
             try:
-                r = run_miri(mc, ["c17", "--seed", seed, "--histories", 40, "--workers", 1])
+                r = run_miri(mc, ["c17", "--seed", seed, "--histories", 3, "--workers", 1], groups=[[t] for g in TYPE_GROUPS for t in g][:64])
                 monitors[mc] = {"histories": r["evaluations"], "ub_reports": 0}
                 evals += r["evaluations"]
                 for v in r["violations"]:
@@ -673,6 +683,7 @@ def check_c17(tier, seed):
         "fault_kinds_effective": effective,
         "fault_kinds_stuck_at_zero": sorted(k for k, v in effective.items() if v == 0),
         "history_digests": {c: r["digests"] for c, r in results},
+        "determinism_selftest": det,
         "monitors": monitors,
         "runs_per_hour": int(evals / max(time.time() - t0, 1e-9) * 3600),
         "simulated_time": "none - no clock, timer or deadline exists in glam",
@@ -699,8 +710,13 @@ def check_c18(tier, seed):
     build_all(cfgs)
     rounds = 2 if tier == "quick" else 24
     samples = 48 if tier == "quick" else 4000
-    results_m, results_p = [], []
     crash_viols = []
+    try:
+        det = selftest_determinism("sse2-rel", seed, [["c18p", "--samples", 8], ["c18m", "--rounds", 1]], seeds=2 if tier == "quick" else 8)
+    except CrashFound as e:
+        det = {"aborted_by_memory_fault": e.what}
+        crash_viols.append(crash_violation(e, seed, "Guarded"))
+    results_m, results_p = [], []
     for c in cfgs:
         try:
             results_m.append((c, run_sim(c, ["c18m", "--seed", seed, "--rounds", rounds])))
@@ -725,6 +741,23 @@ def check_c18(tier, seed):
         evals += r["evaluations"]
         for v in r["violations"]:
             v = dict(v); v["config"] = mc; viols.append(v)
+    # the pointer-cast / intrinsic conversions (to_array, AsRef/AsMut, Deref fields, Into array/tuple/Vec3/Vec4, from_slice,
+    # write_to_slice) of the SIMD-backed types, as short C17 histories under Miri (text paths skipped: float formatting
+    # dominates Miri's run time and touches no glam unsafe code)
+    conv_types = ["Vec3A", "Vec4", "Quat", "BVec3A", "BVec4A"] + (["Vec3", "DVec4", "DQuat", "IVec3", "U8Vec4"] if tier == "thorough" else [])
+    try:
+        r = run_miri("miri", ["c17", "--seed", seed, "--histories", 2 if tier == "quick" else 12, "--workers", 1, "--no-fmt"],
+                     groups=[[t] for t in conv_types])
+        monitors["miri-conversions"] = {"histories": r["evaluations"], "steps": r["extra"].get("steps_executed"), "ub_reports": 0,
+                                        "violations": r["violations_total"]}
+        evals += r["evaluations"]
+        for v in r["violations"]:
+            v = dict(v); v["config"] = "miri"; viols.append(v)
+    except CrashFound as e:
+        monitors["miri-conversions"] = {"ub_reports": 1, "what": e.what}
+        viols.append({"class": "memory-fault:conversions", "config": "miri", "detail": e.what,
+                      "replay": {"property": "C18", "part": "conv", "seed": seed, "violation_class": "memory-fault:conversions",
+                                 "observed": e.what, "rerun": "check.py C18"}})
     try:
         r = run_asan(["c18m", "--seed", seed, "--rounds", 2 if tier == "quick" else 16, "--mem", "heap"])
         monitors["asan"] = {"cases": r["evaluations"], "violations": r["violations_total"], "asan_reports": 0}
@@ -760,6 +793,7 @@ def check_c18(tier, seed):
         "fault_kinds_effective": effective,
         "fault_kinds_stuck_at_zero": sorted(k for k, v in effective.items() if v == 0),
         "monitors": monitors,
+        "determinism_selftest": det,
         "uncovered_api": {c: a["uncovered_api"] for c, a in api.items()},
         "runs_per_hour": int(evals / max(time.time() - t0, 1e-9) * 3600),
         "simulated_time": "none - no clock, timer or deadline exists in glam",
@@ -841,6 +875,15 @@ def main():
         return CHECKS[a.prop](a.tier, a.seed)
     except HarnessError as e:
         print("HARNESS-ERROR: %s" % e, file=sys.stderr)
+        return 2
+    except CrashFound as e:
+        # a monitor abort outside a place that knows how to turn it into a finding: never a silent verdict
+        print("HARNESS-ERROR: unexpected monitor abort in %s: %s (case %s)" % (e.cfg, e.what, json.dumps(e.case)), file=sys.stderr)
+        return 2
+    except Exception as e:  # noqa
+        import traceback
+        traceback.print_exc()
+        print("HARNESS-ERROR: %r" % e, file=sys.stderr)
         return 2
     except subprocess.TimeoutExpired as e:
         print("HARNESS-ERROR: timeout: %s" % e, file=sys.stderr)
